@@ -5,6 +5,7 @@ import (
 	"strconv"
 
 	"github.com/tdewolff/parse/v2"
+	"github.com/tdewolff/parse/v2/buffer"
 )
 
 // TokenType determines the type of token, eg. a number or a semicolon.
@@ -68,6 +69,28 @@ type Lexer struct {
 
 	text    []byte
 	attrVal []byte
+
+	// whitespace in attribute values that was replaced by a space in the input buffer, kept so that
+	// error positions refer to the lines and columns of the original input
+	normalized []normalizedByte
+}
+
+type normalizedByte struct {
+	offset int
+	c      byte
+}
+
+// newError returns an error for the current position in terms of the original input, ie. before
+// attribute value normalization (which may have replaced newlines by spaces).
+func (l *Lexer) newError(message string) *parse.Error {
+	if len(l.normalized) == 0 {
+		return parse.NewErrorLexer(l.r, message)
+	}
+	b := parse.Copy(l.r.Bytes())
+	for _, n := range l.normalized {
+		b[n.offset] = n.c
+	}
+	return parse.NewError(buffer.NewReader(b), l.r.Offset(), message)
 }
 
 // NewLexer returns a new Lexer for a given io.Reader.
@@ -110,7 +133,7 @@ func (l *Lexer) Next() (TokenType, []byte) {
 		}
 		if c == 0 {
 			if l.r.Err() == nil {
-				l.err = parse.NewErrorLexer(l.r, "unexpected NULL character")
+				l.err = l.newError("unexpected NULL character")
 			}
 			return ErrorToken, nil
 		} else if c != '>' && (c != '/' && c != '?' || l.r.Peek(1) != '>') {
@@ -168,7 +191,7 @@ func (l *Lexer) Next() (TokenType, []byte) {
 				return TextToken, l.text
 			}
 			if l.r.Err() == nil {
-				l.err = parse.NewErrorLexer(l.r, "unexpected NULL character")
+				l.err = l.newError("unexpected NULL character")
 			}
 			return ErrorToken, nil
 		}
@@ -282,6 +305,7 @@ func (l *Lexer) shiftAttribute() []byte {
 				}
 				l.r.Move(1)
 				if c == '\t' || c == '\n' || c == '\r' {
+					l.normalized = append(l.normalized, normalizedByte{l.r.Offset() - 1, c})
 					l.r.Lexeme()[l.r.Pos()-1] = ' '
 				}
 			}
